@@ -23,7 +23,7 @@ TRUSTED = [
     "C04 additionally compares FMap.project with Aligned.make_feature on generated gapped alignments",
 ]
 ASSUMPTIONS = [
-    "theorems cover views with |step| = 1 (any slice / rc depth, any offset); strided views are only exercised",
+    "strided views (|step| > 1): feature_on_strided_forward/reversed_view give the feature map and the residues; WHICH features a query returns on a strided view is only checked one way (every feature with a shown residue is returned)",
     "feature spans are as the annotation db stores them (C17 add_feature normalisation): 0 <= start < end, ordered by start",
     "which features a query returns is decided on the db hull (start/stop extremes of the spans), C17's semantics",
     "feature_on_view models str(self[a:b]) for an in-view span as str(self)[a:b] (C01 str_getitem); "
@@ -276,9 +276,38 @@ def run_case(case, rng=None, out=None, win_limit=12, wins=None):
                 continue
             names = sorted(f.name for f in got)
             if stride != 1:
-                # strided views: which parent segment a query denotes is not defined by the property; only
-                # "does not raise" is checked on this stream
+                # strided views (feature_on_strided_*_view): a feature denotes the SHOWN positions lying in its spans.
+                # Checked: every returned feature spells exactly those residues; with allow_partial every feature
+                # with at least one shown residue is returned.  (Which residue-free features come back is not claimed.)
                 bump(out, "strided_returned", min(len(names), 4)) if out is not None else None
+                sv = seq._seq
+                shown = [sv.offset + (i if i >= 0 else i + sv.seq_len) for i in range(sv.start, sv.stop, sv.step)]
+                off = case["offset"]
+                disp = "".join(case["text"][p - off] for p in shown)
+                if str(seq) != (disp.translate(COMP) if sv.step < 0 else disp):
+                    fails.append(("strided view string differs from its shown positions (C01 territory)", inp, disp, str(seq), "view-string:strided"))
+                    continue
+                plus = sorted(shown)
+                wanted = {}
+                for spec in case["feats"]:
+                    ps = [p for x, y in sorted(spec["spans"]) for p in plus if x <= p < y]
+                    w = "".join(case["text"][p - off] for p in ps)
+                    wanted[spec["name"]] = rc(w) if spec["strand"] == "-" else w
+                for f in got:
+                    try:
+                        s_ = str(f.get_slice())
+                    except Exception as e:  # noqa: BLE001
+                        s_ = f"raised {type(e).__name__}: {e}"
+                        if "cannot set offset" in s_ and case["kind"] == "new":
+                            continue
+                    if s_ != wanted[f.name]:
+                        fails.append(("on a strided view feature.get_slice() differs from the shown residues inside its spans",
+                                      dict(inp, feature=byname[f.name]), wanted[f.name], s_,
+                                      f"slice:{flavour}:{byname[f.name]['strand']}"))
+                if ap:
+                    missing = sorted(k for k, w in wanted.items() if w and k not in names)
+                    if missing:
+                        fails.append(("on a strided view a feature with shown residues is not returned", inp, missing, names, f"set:{flavour}:missing"))
                 continue
             if names != sorted(f["name"] for f in expect):
                 fails.append(("get_features returned the wrong set of features", inp, sorted(f["name"] for f in expect), names,
@@ -818,6 +847,41 @@ def run_degap_case(case, out=None):
 
 
 # --------------------------------------------------------------------------
+# a feature overhanging the view on one or both sides: the lost spans must add up
+# --------------------------------------------------------------------------
+def run_overhang_case(case, out=None):
+    """case: kind, text, a, b (view [a:b]), rc, left, right (overhang lengths), strand"""
+    fails = []
+    inp = dict(overhang_case=case)
+    s = mk_seq(case["kind"], case["text"], 0)
+    a, b = case["a"], case["b"]
+    span = (a - case["left"], b + case["right"])
+    s.annotation_db.add_feature(seqid="s", biotype="gene", name="f", spans=[span], strand=case["strand"])
+    v = s[a:b]
+    if case["rc"]:
+        v = v.rc()
+    cls = "both" if case["left"] and case["right"] else "one" if case["left"] or case["right"] else "none"
+    sig = f"overhang:{case['kind']}:{'rev' if case['rc'] else 'fwd'}:{cls}"
+    try:
+        fs = list(v.get_features(allow_partial=True))
+        f = fs[0]
+        got = dict(n=len(fs), len=len(f), rendered=len(str(v.gapped_by_map(f.map))), real=[list(map(int, c)) for c in f.map.get_coordinates()])
+    except Exception as e:  # noqa: BLE001
+        return [("get_features on an overhanging feature raised", inp, "a feature", f"{type(e).__name__}: {e}", sig + f":raises:{type(e).__name__}")]
+    L = b - a
+    want = dict(n=1, len=span[1] - span[0], rendered=span[1] - span[0], real=[[0, L]])
+    if out is not None:
+        out["evaluations"] += 1
+        bump(out, "overhang", cls)
+        if cls != "none":
+            out["nontrivial"].add(("overhang", json.dumps(case)))
+    if got != want:
+        fails.append(("a feature overhanging the view: len(feature) / the gapped rendering of its map differ from the feature's length",
+                      inp, want, got, sig + ":len"))
+    return fails
+
+
+# --------------------------------------------------------------------------
 # spec check
 # --------------------------------------------------------------------------
 def spec_check(ctx, budget):
@@ -827,7 +891,7 @@ def spec_check(ctx, budget):
         "copy(sliced) / deepcopy, every query window on the lattice of feature edges -1/0/+1 (plus negative-index and "
         "None spellings) x allow_partial; checks: the set of returned features = hull overlap / containment rule, each "
         "feature.get_slice() = parent residues in spans ∩ retained segment read on the feature strand, no exception. "
-        "A strided-view stream checks no exception only. Alignments with gapped rows: own-row slice and projection vs "
+        "A strided-view stream checks no exception and that every returned feature spells the SHOWN residues inside its spans. Alignments with gapped rows: own-row slice and projection vs "
         "a column oracle; alignments with a history (rows with different leading gaps, features on every row, "
         "aln[a:b] with a > 0, rc, further slices): get_features(seqid) / default on_alignment / all rows / "
         "get_seq().get_features() / get_projected_features / on_alignment features, each slice vs the residues at the "
@@ -868,6 +932,15 @@ def spec_check(ctx, budget):
             bump(out, "aln_op", op[0])
         for what, inp, want, got, sig in run_aln_hist_case(case, out):
             add_failure(out, "spec", what, inp, want, got, sig=sig)
+    # every combination of left / right overhang 0..3, forward and rc'd views, old and new sequences
+    for kind in ("old", "new"):
+        for rcd in (False, True):
+            for left in range(4):
+                for right in range(4):
+                    case = dict(kind=kind, text="AAACCGGTTTAACCGG", a=4, b=9, rc=rcd, left=left, right=right,
+                                strand="+" if (left + right) % 2 == 0 else "-")
+                    for what, inp, want, got, sig in run_overhang_case(case, out):
+                        add_failure(out, "spec", what, inp, want, got, sig=sig)
     # features ADDED on views / alignment rows, and degap()
     rng2 = ctx.subrng(f"added{budget}")
     for i in range(60 * budget):
@@ -896,6 +969,22 @@ def _parent_text(seq):
         return sv.alphabet.from_indices(raw)  # new-style views hold an index array
     except Exception:  # noqa: BLE001
         return str(raw)
+
+
+def _single_lost(spans):
+    """the model's map without the lost spans `_spans_from_locations` adds: make_feature's own lost spans are only
+    the first (`pre`) and the last (`post`) entry, every INTERIOR lost span comes from a span whose upper end was
+    not clamped (the both-sides-overhang branch)"""
+    return [x for i, x in enumerate(spans) if x[0] != "lost" or i in (0, len(spans) - 1)]
+
+
+def _dup_lost_only(model, real):
+    """True iff `real` is the model's feature map with the duplicated lost span of the both-sides-overhang branch
+    (open finding C04-overhang-both-sides-right-lost-span-twice) emitted once: a repaired tree, not a broken tie"""
+    if not isinstance(model, dict) or not isinstance(real, dict) or "spans" not in model or "spans" not in real:
+        return False
+    single = _single_lost(model["spans"])
+    return single != model["spans"] and real.get("spans") == single and real.get("reversed") == model.get("reversed")
 
 
 def _real_feature(seq, rec):
@@ -963,7 +1052,7 @@ def correspondence(ctx):
     n = ctx.budget(250, 2500)
     reqs, expect = [], []
     for i in range(n):
-        case = gen_case(rng, strided=rng.random() < 0.1)
+        case = gen_case(rng, strided=rng.random() < 0.25)
         try:
             seq, state = build(case)
         except Exception:  # noqa: BLE001
@@ -1011,9 +1100,35 @@ def correspondence(ctx):
                 # residue-level model (Model/FeatureSeq.lean getSlice) on the view's own parent string
                 reqs.append(("getslice", dict(view=vj, parent=_parent_text(seq), minus=f["strand"] == "-", spans=f["spans"])))
                 expect.append(("getslice", dict(case=case, feature=f), real, resid))
+                if case["kind"] == "new":
+                    # new-style `_mapped`: the model predicts exactly when the offset guard fires
+                    reqs.append(("getslice_new", dict(view=vj, parent=_parent_text(seq), minus=f["strand"] == "-", spans=f["spans"])))
+                    expect.append(("getslice_new", dict(case=case, feature=f), real, resid))
                 # (c) spec function vs oracle
                 reqs.append(("denote", dict(spans=sorted(f["spans"]), minus=f["strand"] == "-", p0=p0, p1=p1)))
                 expect.append(("denote", dict(feature=f, p0=p0, p1=p1), dict(pos=oracle_positions(f, state), comp=f["strand"] == "-"), None))
+        # (b'') copy(sliced=True): the slice record of the copy
+        if abs(vj["step"]) == 1 and L > 0:
+            try:
+                cj = view_json(seq.copy())
+            except Exception as e:  # noqa: BLE001
+                cj = {"err": type(e).__name__}
+            reqs.append(("copyview", dict(view=vj)))
+            expect.append(("copyview", dict(case=case), cj, None))
+        # (b') STRIDED views: feature map and residues spelled from the model's positions (viewPosAny)
+        if abs(vj["step"]) != 1 and L > 0:
+            for f in case["feats"]:
+                real = _real_feature(seq, f)
+                if real is None:
+                    continue
+                resid = None
+                if "err" not in real:
+                    try:
+                        resid = str([x for x in seq.get_features(name=f["name"], allow_partial=True)][0].get_slice())
+                    except Exception as e:  # noqa: BLE001
+                        resid = f"raised {type(e).__name__}: {e}"
+                reqs.append(("feature_any", dict(view=vj, minus=f["strand"] == "-", spans=f["spans"])))
+                expect.append(("feature_any", dict(case=case, feature=f), real, (resid, case)))
     # (d) projection of sequence features onto alignment columns (Aligned.make_feature) vs FMap.project
     def fm_json(m):
         return dict(pl=int(m.parent_length), spans=[["l", int(x.length)] if x.lost else ["s", int(x.start), int(x.end), bool(x.reverse)] for x in m.spans])
@@ -1122,7 +1237,14 @@ def correspondence(ctx):
             bump(out, "makefeature_class", inp["cls"])
             if "err" in real or "err" in rep:
                 bump(out, "makefeature_err", str(real.get("err")))
-            if rep != real:
+            if rep != real and _dup_lost_only(rep, real):
+                bump(out, "overhang_both", "real-matches-spec-not-model")
+            elif rep != real and inp.get("cls") == "malformed" and rep == {"err": "ValueError"} and "spans" in real \
+                    and all(x[0] == "lost" or x[0] == x[1] for x in real["spans"]):
+                # malformed (reversed-pair) input straddling a view end: a tree that clamps both ends in the
+                # `min < 0 < max` branch turns the pair into a zero-length span instead of raising; same open finding
+                bump(out, "overhang_both", "malformed:zero-length-instead-of-ValueError")
+            elif rep != real:
                 add_failure(out, "corr", "makeFeature model differs from Sequence.make_feature called directly", inp, rep, real, confirmed=False)
             elif "err" in real or any(x[0] == "lost" for x in real["spans"]) or real["reversed"]:
                 out["nontrivial"].add(("mf", inp.get("L", 0), json.dumps(inp["rel_spans"]), inp["strand"], json.dumps(inp.get("case", {}).get("ops"))))
@@ -1144,7 +1266,8 @@ def correspondence(ctx):
                 if len(inp["case"]["ops"]) > 1 or extra[2]:
                     out["nontrivial"].add(("hist", inp["case"]["text"], json.dumps(inp["case"]["ops"]), inp["feature"]["name"]))
         elif kind == "cliplocate":
-            if rep != real:
+            if rep != real and not (isinstance(rep, list) and isinstance(real, list) and rep and rep[-1][0] == "lost"
+                                    and real == [x for x in rep if x[0] != "lost"]):
                 add_failure(out, "corr", "clipLocate (clipSpan then locate) differs from the real map of one span", inp, rep, real, confirmed=False)
         elif kind == "project":
             got = None if "err" in rep else dict(pl=rep["pl"], spans=rep["spans"])
@@ -1152,6 +1275,39 @@ def correspondence(ctx):
                 add_failure(out, "corr", "FMap.project model differs from Aligned.make_feature", inp, got, real, confirmed=False)
             elif any(x[0] == "l" for x in real["spans"]) or len(real["spans"]) > 1:
                 out["nontrivial"].add(("proj", json.dumps(inp["aln_case"]["rows"]), inp["feature"]["name"]))
+        elif kind == "copyview":
+            if rep != real:
+                add_failure(out, "corr", "copyView model differs from the slice record of Sequence.copy()", inp, rep, real, confirmed=False)
+            elif real.get("offset"):
+                out["nontrivial"].add(("copy", json.dumps(inp["case"]["ops"]), inp["case"]["text"], inp["case"]["offset"]))
+        elif kind == "getslice_new":
+            raised = isinstance(extra, str) and extra.startswith("raised")
+            bump(out, "new_mapped", "guard-fires" if raised else "residues")
+            if "err" in real:
+                pass  # make_feature itself raised: compared by the feature stream
+            elif raised:
+                if not ("cannot set offset" in extra and rep == {"err": "ValueError"}):
+                    add_failure(out, "corr", "getSliceNew: the real new-style get_slice raised where the model does not (or another error)", inp, rep, extra, confirmed=False)
+            elif rep != extra:
+                add_failure(out, "corr", "getSliceNew model differs from the new-style get_slice (guard or residues)", inp, rep, extra, confirmed=False)
+        elif kind == "feature_any":
+            resid, case = extra
+            bump(out, "strided_feature", "err" if "err" in real else "ok")
+            if "err" in real or "err" in rep:
+                if real != rep:
+                    add_failure(out, "corr", "featureOnView (strided) and make_feature disagree about raising", inp, rep, real, confirmed=False)
+                continue
+            if dict(spans=rep["spans"], reversed=rep["reversed"]) != real and not _dup_lost_only(rep, real):
+                add_failure(out, "corr", "featureOnView (strided) differs from the feature map make_feature builds", inp, rep, real, confirmed=False)
+                continue
+            txt = "".join(case["text"][p - case["offset"]] for p in rep["pos"])
+            txt = txt.translate(COMP) if rep["comp"] else txt
+            if isinstance(resid, str) and resid.startswith("raised") and "cannot set offset" in resid and case["kind"] == "new":
+                bump(out, "get_slice_raised", "strided:new-offset-guard")
+            elif txt != resid:
+                add_failure(out, "corr", "strided model positions do not spell the residues get_slice returned", inp, txt, resid, confirmed=False)
+            else:
+                out["nontrivial"].add(("fs", json.dumps(inp["case"]["ops"]), inp["case"]["text"], inp["feature"]["name"]))
         elif kind == "getslice":
             if "err" in real:
                 if rep != real:
@@ -1178,6 +1334,11 @@ def correspondence(ctx):
                     out["nontrivial"].add(("ferr", json.dumps(inp["case"]["ops"]), inp["case"]["text"], inp["feature"]["name"]))
                 continue
             if dict(spans=rep["spans"], reversed=rep["reversed"]) != real:
+                if _dup_lost_only(rep, real):
+                    # branch of the open finding C04-overhang-both-sides-right-lost-span-twice: the model mirrors the
+                    # duplicated lost span; a tree that emits it once is right (spec_check decides)
+                    bump(out, "overhang_both", "real-matches-spec-not-model")
+                    continue
                 add_failure(out, "corr", "featureOnView model differs from the feature map make_feature builds", inp, rep, real, confirmed=False)
                 continue
             # the model's slice positions must spell the residues the real get_slice returned
@@ -1267,6 +1428,8 @@ def _other_case(w):
         return run_aln_added_case(w["aln_added_case"])
     if "degap_case" in w:
         return run_degap_case(w["degap_case"])
+    if "overhang_case" in w:
+        return run_overhang_case(w["overhang_case"])
     return None
 
 
